@@ -1,6 +1,7 @@
 package props
 
 import (
+	"runtime"
 	"encoding/hex"
 	"encoding/json"
 	"fmt"
@@ -138,6 +139,8 @@ type c06Case struct {
 	Byte int      `json:"byte,omitempty"`
 	Seqs []string `json:"seqs,omitempty"`
 	Hex  []string `json:"hex,omitempty"` // kind hibytes: the rows, hex encoded (JSON strings cannot carry bytes >= 0x80)
+	// Procs: GOMAXPROCS during the case (0 = unchanged): operations that share rows out between processors
+	Procs int `json:"procs,omitempty"`
 }
 
 const (
@@ -193,6 +196,22 @@ func c06Tasks(tier string) []mc.Task {
 			}
 		}})
 	}
+
+	// (i') more rows than processors, for 2, 3 and 4 processors (work shared out by row blocks must reach every
+	// row): 3, 5, 7 and 10 rows, aligned and ragged
+	ts = append(ts, mc.Task{Name: "manyrows#procs", Run: func(c *mc.Ctx) {
+		base := []string{"ACGT-RYn", "TTGCA-ac", "GGCCAANN", "acgtRYKM", "A-C-G-T-", "CATGCATG", "nnnnACGT", "BDHVbdhv", "SWKMswkm", "--ACGT--"}
+		for _, n := range []int{3, 5, 7, 10} {
+			for _, procs := range []int{1, 2, 3, 4} {
+				c06Check(c, c06Case{Kind: "aln", Seqs: base[:n], Procs: procs})
+				ragged := make([]string, n)
+				for i := range ragged {
+					ragged[i] = base[i][:2+(i*3)%7] // the first row is not the longest
+				}
+				c06Check(c, c06Case{Kind: "bag", Seqs: ragged, Procs: procs})
+			}
+		}
+	}})
 
 	// (ii) one row over the full alphabet, then longer rows over the 8-symbol alphabet
 	row := func(c *mc.Ctx, s []byte) { c06Check(c, c06Case{Kind: "row", Seqs: []string{string(s)}}) }
@@ -691,6 +710,9 @@ func (k *c06Checker) bagOps() {
 
 func c06Check(c *mc.Ctx, cs c06Case) {
 	c.Eval()
+	if cs.Procs > 0 {
+		defer runtime.GOMAXPROCS(runtime.GOMAXPROCS(cs.Procs))
+	}
 	k := &c06Checker{c: c, cs: cs, seqs: cs.Seqs}
 	switch cs.Kind {
 	case "hibytes":
